@@ -360,6 +360,52 @@ theorem model_satisfies_spec (x : Img Rat) (mask : Nat → Nat → Bool) (b0 b1 
 
 /-! ## the probability loop: every rᵢ is computed over the pixels of r -/
 
+/-- **Memory layout (copy case).**  When the block view does not alias the returned array (Fortran-ordered
+input, or a strided view in in-place mode: `np.ascontiguousarray` copies) the call returns the input pixel for
+pixel - it is the identity permutation of the blocks, still "a permutation of whole blocks inside the mask". -/
+theorem layout_copy_returns_input {α : Type} (x : Img α) (mask : Nat → Nat → Bool) (b0 b1 : Nat)
+    (padMode part : Bool) (nidx : List Nat) (i j : Nat) (hi : i < x.n0) (hj : j < x.n1) :
+    (shuffleBlocksLayout false x mask b0 b1 padMode part nidx).get i j = x.get i j := by
+  have hphi : ∀ (nb0 nb1 : Nat) (idx : List Nat), phi b0 b1 nb0 nb1 idx idx i j = (i, j) := by
+    intro nb0 nb1 idx
+    unfold phi
+    split
+    · rename_i hv
+      have hs : src idx idx (i / b0 * nb1 + j / b1) = i / b0 * nb1 + j / b1 := by
+        unfold src
+        split
+        · rename_i hlt
+          rw [List.getD_eq_getElem?_getD, List.getElem?_eq_getElem hlt]
+          exact List.getElem_idxOf hlt
+        · rfl
+      simp only [hs]
+      rw [blk_div _ _ _ hv.2, blk_mod _ _ _ hv.2, blk_recompose, blk_recompose]
+    · rfl
+  unfold shuffleBlocksLayout shuffleBlocks shuffleIdx
+  simp only [Bool.false_eq_true, if_false, hphi]
+  cases padMode with
+  | false => simp [prepare]
+  | true =>
+    have e0 : edge x.n0 i = i := by unfold edge; omega
+    have e1 : edge x.n1 j = j := by unfold edge; omega
+    simp [prepare, e0, e1]
+
+/-- whichever the layout, the result satisfies the relation the check evaluates (`model_satisfies_spec` lifted to
+`shuffleBlocksLayout`) -/
+theorem layout_satisfies_spec (aliases : Bool) (x : Img Rat) (mask : Nat → Nat → Bool) (b0 b1 : Nat)
+    (padMode part : Bool) (nidx : List Nat) (hb0 : 0 < b0) (hb1 : 0 < b1)
+    (hp : nidx.Perm (shuffleIdx x mask b0 b1 padMode part)) :
+    specOutside x (shuffleBlocksLayout aliases x mask b0 b1 padMode part nidx) mask b0 b1 padMode part = true ∧
+    specBlocks x (shuffleBlocksLayout aliases x mask b0 b1 padMode part nidx) mask b0 b1 padMode part = true ∧
+    (conservedApplies x b0 b1 padMode = true →
+      specConserved x (shuffleBlocksLayout aliases x mask b0 b1 padMode part nidx) = true) := by
+  unfold shuffleBlocksLayout
+  cases aliases with
+  | true => simpa using model_satisfies_spec x mask b0 b1 padMode part nidx hb0 hb1 hp
+  | false =>
+    simpa using model_satisfies_spec x mask b0 b1 padMode part (shuffleIdx x mask b0 b1 padMode part) hb0 hb1
+      (List.Perm.refl _)
+
 /-- Every image of the shuffle sequence has the shape of `y`, so `shuffledᵢ[mask]` reads exactly
 the coordinates `{q | mask q}` that `y[mask]` (and `x[mask]`) read; and there is one rᵢ per shuffle. -/
 theorem same_pixels (x y : Img Rat) (mask : Nat → Nat → Bool) (b : Nat) (part : Bool)
